@@ -218,8 +218,14 @@ func compare(file string, gots []got, want []refbench.Record, wantInternal map[s
 			if !mapsEqual(g.fcfg, w.Config) {
 				return fmt.Sprintf("%s:%d: file configuration {%s}, reference {%s}", file, ln, fmtMap(g.fcfg), fmtMap(w.Config))
 			}
-			if !mapsEqual(g.icfg, wantInternal) {
-				return fmt.Sprintf("%s:%d: tool-supplied configuration {%s}, want {%s}", file, ln, fmtMap(g.icfg), fmtMap(wantInternal))
+			wi := map[string]string{}
+			for k, v := range wantInternal {
+				if !w.Touched[k] {
+					wi[k] = v
+				}
+			}
+			if !mapsEqual(g.icfg, wi) {
+				return fmt.Sprintf("%s:%d: tool-supplied configuration {%s}, want {%s} (labels %s; the file has touched %v)", file, ln, fmtMap(g.icfg), fmtMap(wi), fmtMap(wantInternal), w.Touched)
 			}
 		}
 		for i := range wa.units {
@@ -350,8 +356,10 @@ func checkReader(c Case, texts []string, v *vcase.Verdict) string {
 		internal := map[string]string{}
 		var init []string
 		if i%2 == 1 {
-			init = []string{".file", fname, "tool", "x y"}
-			internal = map[string]string{".file": fname, "tool": "x y"}
+			// (goos=linux: a label that files often set themselves, to the same or another value;
+			// once a file line sets it, it is file configuration)
+			init = []string{".file", fname, "tool", "x y", "goos", "linux"}
+			internal = map[string]string{".file": fname, "tool": "x y", "goos": "linux"}
 		}
 		if r == nil || c.Mode != "reset" {
 			r = benchfmt.NewReader(strings.NewReader(text), fname)
